@@ -24,10 +24,9 @@ def Scalar.canon : Scalar → Scalar
   | .float f => .float f.canon
   | s => s
 
-/-- Unknown fields are the same: identical bytes, or the same total length and the same raw bytes per
-field number (the rule documented on proto.Equal's `equalUnknown`). -/
-def unkSame (x y : Unk) : Prop :=
-  unkBytes x = unkBytes y ∨ ((unkBytes x).length = (unkBytes y).length ∧ ∀ n, unkGroup n x = unkGroup n y)
+/-- Unknown fields are the same: for every field number the same raw bytes, all occurrences in order (the
+rule of proto.Equal; the order of records of DIFFERENT numbers does not matter). -/
+def unkSame (x y : Unk) : Prop := ∀ n, unkGroup n x = unkGroup n y
 
 mutual
   inductive PEq (ign : String → FD → Bool) : Val → Val → Prop
